@@ -234,6 +234,171 @@ def task_inflate(ctx: Ctx, which: str, part: int, parts: int) -> None:
         ctx.case("fault", {"file": which, "edits": [["ins", pos, 0xFF], ["ins", pos, 0xFF], ["ins", pos, 0xFF]]})
 
 
+# --- coverage-guided campaign (atheris / libFuzzer) over a small real database ----------------------------------------
+
+# small real zones: fixed, precalculated without a tail, with a tail (standard/daylight rules), negative-savings tail
+MINI_ZONES = ["Etc/GMT+5", "EST", "Antarctica/Troll", "Pacific/Norfolk", "America/Indiana/Vevay", "Europe/Andorra"]
+
+
+def _varint(n: int) -> bytes:
+    out = bytearray()
+    while True:
+        b = n & 0x7F
+        n >>= 7
+        if n:
+            out.append(b | 0x80)
+        else:
+            out.append(b)
+            return bytes(out)
+
+
+@lru_cache(maxsize=None)
+def mini_parts(which: str = "bundled") -> tuple[bytes, bytes]:
+    """(prefix, tail) of a small valid database cut out of the real file: prefix = header + string pool + Windows
+    mapping (never mutated), tail = version + 8 real zone fields + an alias map restricted to those zones."""
+    data = raw(which)
+    db = c06.ref_db(which)
+    by_fid: dict[int, list[bytes]] = {}
+    for fid, fstart, pstart, pend in db.fields:
+        by_fid.setdefault(fid, []).append(data[fstart:pend])
+    keep = [z for z in MINI_ZONES if z in db.zones]
+    zone_fields = [data[db.zones[z].field_start : db.zones[z].payload_end] for z in keep]
+    pool_ix = {s_: i for i, s_ in enumerate(db.pool)}
+    pairs = [(a, cn) for a, cn in sorted(db.id_map.items()) if cn in keep and a in pool_ix and cn in pool_ix][:4]
+    payload = _varint(len(pairs)) + b"".join(_varint(pool_ix[a]) + _varint(pool_ix[cn]) for a, cn in pairs)
+    idmap = bytes([3]) + _varint(len(payload)) + payload
+    # a slim string pool: same indices, but every string the kept fields do not reference becomes "" (2 kB, not 21 kB)
+    from ref.nzd import _peek_varint
+
+    needed = {pool_ix[x] for pr in pairs for x in pr}
+    for z in keep:
+        needed |= {_peek_varint(data, pos) for pos, kind in db.zones[z].marks if kind == "pool-index"}
+    ppay = _varint(len(db.pool)) + b"".join((_varint(len(t.encode())) + t.encode()) if i in needed else b"\x00" for i, t in enumerate(db.pool))
+    pool = bytes([0]) + _varint(len(ppay)) + ppay
+    some = _varint(min(needed))
+    wpay = some + some + some + _varint(0)  # Windows mapping: three (pooled) version strings and no map zones
+    windows = bytes([4]) + _varint(len(wpay)) + wpay
+    prefix = data[:4] + pool + windows
+    tail = by_fid[2][0] + b"".join(zone_fields) + idmap
+    return prefix, tail
+
+
+def exercise_bytes(data: bytes) -> tuple[bool, int]:
+    from pyoda_time.time_zones import DateTimeZoneCache
+    from pyoda_time.time_zones._tzdb_date_time_zone_source import TzdbDateTimeZoneSource
+    from pyoda_time.utility import InvalidPyodaDataError
+
+    try:
+        src = TzdbDateTimeZoneSource.from_stream(io.BytesIO(data))
+    except InvalidPyodaDataError:
+        return False, 0
+    try:
+        ids = list(src.get_ids())
+        _ = src.version_id
+    except InvalidPyodaDataError:
+        return True, 0
+    try:
+        cache = DateTimeZoneCache(src)
+    except InvalidPyodaDataError:
+        cache = None
+    fetched = 0
+    for k, zid in enumerate(ids[:40]):
+        for fn in ((lambda: src.for_id(zid)), (lambda: cache[zid]) if cache is not None and k % 4 == 0 else None):
+            if fn is None:
+                continue
+            try:
+                z = fn()
+                fetched += 1
+                _ = (z.id, z.min_offset, z.max_offset)
+            except InvalidPyodaDataError:
+                pass
+    return True, fetched
+
+
+def _k_bytes(c) -> CaseInfo:
+    """A whole damaged stream given as the (hex) tail after the mini database's fixed prefix."""
+    import resource
+
+    try:
+        tail = bytes.fromhex(c["tail"][: len(c["tail"]) // 2 * 2])
+    except (ValueError, TypeError, KeyError):
+        raise InvalidCase from None
+    prefix, pristine = mini_parts("bundled")
+    rss0 = resource.getrusage(resource.RUSAGE_SELF).ru_maxrss
+    try:
+        loaded, fetched = exercise_bytes(prefix + tail)
+    except MemoryError:
+        raise Mismatch("memory-exhaustion", "MemoryError while loading / fetching from damaged data") from None
+    grown_mb = (resource.getrusage(resource.RUSAGE_SELF).ru_maxrss - rss0) // 1024
+    need(grown_mb < 400, "memory-exhaustion", f"peak resident memory grew by {grown_mb} MB while handling the damaged stream")
+    return CaseInfo(tail != pristine, "bytes:loaded" if loaded else "bytes:rejected-at-load")
+
+
+def task_atheris(ctx: Ctx, shard: int, runs: int) -> None:
+    """libFuzzer campaign (fixed -seed, -runs; fresh corpus of the pristine tail and its per-field pieces). Findings
+    the target saved - and libFuzzer's own crash/timeout/oom artifacts - are re-evaluated here through the ordinary
+    `bytes` kind, so they are reported, shrunk and replayed like any other case."""
+    import glob
+    import json
+    import os
+    import shutil
+    import subprocess
+    import sys
+    import tempfile
+
+    from harness import bootstrap
+
+    try:
+        import atheris  # noqa: F401
+    except Exception:  # noqa: BLE001
+        ctx.label("atheris:unavailable")
+        return
+    prefix, tail = mini_parts("bundled")
+    need_ok, _ = exercise_bytes(prefix + tail)
+    if not need_ok:
+        raise RuntimeError("mini database does not load on this tree")  # harness-side problem, not a property violation
+    ctx.case("bytes", {"tail": tail.hex()})
+    work = tempfile.mkdtemp(prefix=f"c20-atheris-{shard}-", dir=os.environ.get("VERIF_WORK_DIR") or None)
+    try:
+        corpus = os.path.join(work, "corpus")
+        out = os.path.join(work, "out")
+        os.makedirs(corpus)
+        os.makedirs(out)
+        with open(os.path.join(work, "prefix.bin"), "wb") as fh:
+            fh.write(prefix)
+        with open(os.path.join(corpus, "pristine"), "wb") as fh:
+            fh.write(tail)
+        if shard % 2:
+            # odd shards also start from single-zone databases (short inputs mutate faster)
+            data = raw("bundled")
+            db = c06.ref_db("bundled")
+            ver = [data[fs:pe] for fid, fs, ps, pe in db.fields if fid == 2][0]
+            for z in MINI_ZONES:
+                if z in db.zones:
+                    zf = data[db.zones[z].field_start : db.zones[z].payload_end]
+                    with open(os.path.join(corpus, "one-" + z.replace("/", "_")), "wb") as fh:
+                        fh.write(ver + zf + bytes([3, 1, 0]))
+        seed = 1 + sub_seed(ctx.seed, "c20-atheris", shard) % (2**31 - 2)
+        cmd = [sys.executable, os.path.join(bootstrap.VERIF_DIR, "fuzz", "c20_fuzz.py"), os.path.join(work, "prefix.bin"), out, corpus,
+               f"-runs={runs}", f"-seed={seed}", "-max_len=20000", "-timeout=120", "-rss_limit_mb=4096", f"-artifact_prefix={out}/", "-print_final_stats=1"]
+        r = subprocess.run(cmd, capture_output=True, text=True, timeout=None)
+        stats = {}
+        try:
+            stats = json.load(open(os.path.join(out, "stats.json")))
+        except Exception:  # noqa: BLE001
+            pass
+        execs = int(stats.get("execs", 0))
+        if execs == 0:
+            raise RuntimeError(f"atheris campaign did not run: exit {r.returncode}: {(r.stdout + r.stderr)[-600:]}")
+        ctx.bulk(execs, int(stats.get("loaded", 0)), label="atheris:exec")
+        ctx.sample("atheris", {"shard": shard, "seed": seed, "execs": execs, "loaded": stats.get("loaded"), "fetched": stats.get("fetched"), "buckets": {k: v["n"] for k, v in stats.get("buckets", {}).items()}}, True)
+        for f in sorted(glob.glob(os.path.join(out, "finding-*.bin")) + glob.glob(os.path.join(out, "crash-*")) + glob.glob(os.path.join(out, "timeout-*")) + glob.glob(os.path.join(out, "oom-*"))):
+            with open(f, "rb") as fh:
+                ctx.case("bytes", {"tail": fh.read().hex()})
+    finally:
+        shutil.rmtree(work, ignore_errors=True)
+
+
 def task_hyp(ctx: Ctx, which: str, shard: int, n: int) -> None:
     s = sub_seed(ctx.seed, "c20", which, shard)
     marks, _ = structure(which)
@@ -280,4 +445,6 @@ def tasks(tier: str, seed: int) -> list[Task]:
             out.append(Task("task_inflate", {"which": which, "part": j, "parts": 4 * (1 if thorough else 12)}, f"inflate-{which}-{j}"))
         for j in range(4 if not thorough else 8):
             out.append(Task("task_hyp", {"which": which, "shard": j, "n": 300 if not thorough else 6000}, f"hyp-{which}-{j}"))
+    for j in range(2 if not thorough else 16):
+        out.append(Task("task_atheris", {"shard": j, "runs": 3000 if not thorough else 150000}, f"atheris-{j}"))
     return out
